@@ -23,6 +23,8 @@ THEOREMS = [
     "add_keys_within_cap_fetches_exactly_unheld", "add_keys_idle_clean",
     "chan_delivers_all", "try_send_loses_report", "timed_out_report_delivered", "agree_deferred_sound",
     "put_arm_order", "put_arm_wrong_order_refuted", "run_items_sound",
+    "fetch_completed_arm_is_early", "put_arm_calls_in_order", "early_completion_exact",
+    "put_notification_drops_other_version",
 ]
 IMPORTS = "Require Import V.model.Fetcher."
 RULE = ("histories of 1-60 primitive operations on one fetcher: 2-4 holders, 3-40 keys (real 256-bit XOR "
@@ -35,7 +37,8 @@ RULE = ("histories of 1-60 primitive operations on one fetcher: 2-4 holders, 3-4
         "time out, drained at the end), driver-level histories (REAL SwarmDriver::handle_local_cmd PutLocalRecord / "
         "FetchCompleted arms around the driver-owned fetcher, record store filled to max_records = 16384 with keys "
         "closer than 2^255, advertised keys farther / a few nearer, arrivals refused for MaxRecords or accepted by "
-        "eviction), exhaustive short histories over 3 keys x 2 holders (thorough). "
+        "eviction; two versions of one key in flight from different holders and FetchCompleted of one of them), "
+        "exhaustive short histories over 3 keys x 2 holders (thorough). "
         "A case is distinct/non-trivial by (multiset of op kinds, max in-flight bucket, max queue bucket, "
         "events seen, fast path taken, cap reached)")
 ASSUMPTIONS = [
@@ -348,6 +351,33 @@ def driver_script(rng, consts, kp_seed, peer_hex, full=True):
                   fill={"n": fill_n, "seed": rng.randrange(1 << 30), "below": str(below)})
 
 
+def driver_versions_script(rng, consts, kp_seed, peer_hex):
+    """two versions (NonChunk h1 / h2) of the same register/transaction keys in flight from different holders,
+    then FetchCompleted (early completion) of ONE version through the real handle_local_cmd arm: exactly that
+    version's fetch and queued entries go, the other version keeps running"""
+    w = World(rng, 0, 4, consts, kinds=[])
+    w.self_ = peer_hex
+    nk = rng.randint(3, 8)
+    w.keys = [rng.randbytes(32).hex() for _ in range(nk)]
+    w.dist = [dist_py(peer_hex, k) for k in w.keys]
+    w.order = sorted(range(nk), key=lambda i: w.dist[i])
+    w.kind = [2] * nk
+    both = rng.sample(range(nk), rng.randint(1, nk))
+    ops = [{"op": "add", "h": 0, "inc": [[i, 2] for i in range(nk)]},
+           {"op": "add", "h": 1, "inc": [[i, 3] for i in both] + ([[both[0], 3]] if len(both) == 1 else [])}]
+    if rng.random() < 0.6:        # a third holder's entries for the second version stay queued
+        ops.append({"op": "add", "h": 2, "inc": [[i, 3] for i in both] + [[both[0], 2]]})
+    ops += age_op(w, rng.choice([1000, consts[1] // 4]))
+    for k in rng.sample(both, min(len(both), rng.randint(1, 3))):
+        ops.append({"op": "early", "k": k, "t": rng.choice([2, 3])})
+        if rng.random() < 0.4:
+            ops.append({"op": "add", "h": rng.choice([1, 3]), "inc": [[i, 3] for i in both] + [[k, 2]]})
+        if rng.random() < 0.3:
+            ops.append({"op": "early", "k": k, "t": 4})            # a version nobody advertised
+    return w.case(ops, "driver-versions", mode="driver", kp_seed=kp_seed,
+                  fill={"n": rng.choice([0, 50]), "seed": rng.randrange(1 << 30), "below": str(1 << 255)})
+
+
 def exhaustive_cases(rng, consts, length, limit):
     """all histories of `length` ops over a small alphabet on 3 keys x 2 holders (sampled down to limit)."""
     w = World(rng, 3, 2, consts, kinds=[0, 2, 0])
@@ -389,6 +419,9 @@ def gen(ctx):
     for j in range(6 if quick else 60):
         seed = rng.randrange(1, 200)
         cases.append(driver_script(rng, consts, seed, ctx.c08_peer(seed), full=(j % 3 != 2)))
+    for j in range(8 if quick else 80):
+        seed = rng.randrange(1, 200)
+        cases.append(driver_versions_script(rng, consts, seed, ctx.c08_peer(seed)))
     for _ in range(n_rand):
         cases.append(random_history(rng, consts))
     for _ in range(n_adv):
